@@ -49,6 +49,17 @@ VKinds   == {"dv", "uv", "iv"}
 AllKinds == VKinds \cup {"sv", "mx", "tn", "dl"}
 LongS    == "long" \in Kinds       \* strings of 255 / 256 / 257 characters (the replay harness expands the codes): StrVectorResize hands out 256-byte buffers
 StrVals  == {"", "a", "bc"} \cup (IF LongS THEN {"<L255>", "<L256>", "<L257>"} ELSE {})
+\* K4 (long number text): numbers whose "%f" / "%d" text is long or degenerate.  A code "<D:v>" / "<I:v>" stands both for the
+\* value handed to StrVectorAppendDouble / StrVectorAppendInt and for the cell the call must store: the "%f" ("%d") text of that value
+\* (the replay harness expands the code with snprintf into a buffer of the required size and compares length and content).
+\* Text lengths (measured): 1e24 31 characters, -1e24 32, 1e25 33, -1e30 39; 1e55 / 1e56 / 1e57 63 / 64 / 65; 1e120 / -1e120 / 1e121
+\* 127 / 128 / 129; -1e247 / 1e248 / 1e250 255 / 256 / 257; 1e300 308; DBL_MAX 316, -DBL_MAX 317; DBL_MIN and 1e-300 print as "0.000000".
+DblCodesAll == {"<D:1e24>", "<D:-1e24>", "<D:1e25>", "<D:-1e30>", "<D:1e55>", "<D:1e56>", "<D:1e57>", "<D:1e120>", "<D:-1e120>", "<D:1e121>",
+                "<D:-1e247>", "<D:1e248>", "<D:1e250>", "<D:1e300>", "<D:DBL_MAX>", "<D:-DBL_MAX>", "<D:DBL_MIN>", "<D:1e-300>"}
+IntCodesAll == {"<I:INT_MIN>", "<I:INT_MAX>", "<I:-2147483647>"}
+\* switch "bignum": all of them (history generator); "bignum-mc": a small subset for the exhaustive runs
+DblCodes == IF "bignum" \in Kinds THEN DblCodesAll ELSE IF "bignum-mc" \in Kinds THEN {"<D:-1e24>", "<D:1e-300>"} ELSE {}
+IntCodes == IF "bignum" \in Kinds THEN IntCodesAll ELSE IF "bignum-mc" \in Kinds THEN {"<I:INT_MIN>"} ELSE {}
 UNSET    == "<unset>"            \* slot of NewStrVector(n): one uninitialised byte, content undefined
 Dims     == 0..MaxDim
 Idxs     == 0..(MaxDim + 1)      \* API indices tried by accessors (in and out of range)
@@ -260,6 +271,15 @@ SvAppendDouble(x, v) == /\ On("sv") /\ SLive(x) /\ Len(sv[x].d) < MaxDim
                         /\ sv' = [sv EXCEPT ![x].d = Append(@, DblStr(v))]
                         /\ op' = O("StrVectorAppendDouble", "na", {R("sv", x)}, {}, {R("sv", x)}, [x |-> x, v |-> v])
                         /\ UNCHANGED oSv
+\* the same two calls with a number of the K4 set: the cell is the code (= the number's text, see DblCodes)
+SvAppendIntBig(x, c) == /\ On("sv") /\ SLive(x) /\ Len(sv[x].d) < MaxDim /\ c \in IntCodes
+                        /\ sv' = [sv EXCEPT ![x].d = Append(@, c)]
+                        /\ op' = O("StrVectorAppendInt:big", "na", {R("sv", x)}, {}, {R("sv", x)}, [x |-> x, c |-> c])
+                        /\ UNCHANGED oSv
+SvAppendDoubleBig(x, c) == /\ On("sv") /\ SLive(x) /\ Len(sv[x].d) < MaxDim /\ c \in DblCodes
+                           /\ sv' = [sv EXCEPT ![x].d = Append(@, c)]
+                           /\ op' = O("StrVectorAppendDouble:big", "na", {R("sv", x)}, {}, {R("sv", x)}, [x |-> x, c |-> c])
+                           /\ UNCHANGED oSv
 SvSet(x, i, s) == /\ On("sv") /\ SLive(x) /\ i < Len(sv[x].d)
                   /\ sv' = [sv EXCEPT ![x].d[i + 1] = s]
                   /\ op' = O("setStr", "in", {R("sv", x)}, {}, {R("sv", x)}, [x |-> x, i |-> i, s |-> s])
@@ -519,6 +539,8 @@ NextSv == \E x \in PoolOn("sv") :
              \/ \E n \in Dims : SvNew(x, n) \/ SvResize(x, n)
              \/ \E s \in StrVals : SvAppend(x, s)
              \/ \E v \in SVals : SvAppendInt(x, v) \/ SvAppendDouble(x, v)
+             \/ \E c \in IntCodes : SvAppendIntBig(x, c)
+             \/ \E c \in DblCodes : SvAppendDoubleBig(x, c)
              \/ \E i \in Idxs : SvGet(x, i) \/ SvAppendOwn(x, i) \/ (\E s \in StrVals : SvSet(x, i, s)) \/ (\E k \in Idxs : SvSetOwn(x, i, k))
              \/ \E b, y \in Pool : SvExtend(x, b, y)
 NextMx == \E x \in PoolOn("mx") :
@@ -555,7 +577,7 @@ Spec == Init /\ [][Next]_vars
 (* ---------------------------------------------------------------- invariants (state) ---------- *)
 WellShaped(m) == /\ DOMAIN m.cell = 1..m.row
                  /\ \A i \in 1..m.row : DOMAIN m.cell[i] = 1..m.col /\ \A j \in 1..m.col : m.cell[i][j] \in SVals
-StrOK(s) == s = UNSET \/ s \in StrVals \/ s \in SplitToks \/ \E v \in SVals : s = IntStr(v) \/ s = DblStr(v)
+StrOK(s) == s = UNSET \/ s \in StrVals \/ s \in SplitToks \/ s \in DblCodes \/ s \in IntCodes \/ \E v \in SVals : s = IntStr(v) \/ s = DblStr(v)
 \* every matrix row has length col (matrices and tensor layers); sizes within bounds; a dead slot holds nothing
 Shape == /\ \A x \in Pool : MLive(x) => WellShaped(mx[x]) /\ mx[x].row \in Dims /\ mx[x].col \in Dims
          /\ \A x \in Pool : TLive(x) => Order(x) \in Dims /\ \A k \in 1..Order(x) : tn[x].m[k].live => WellShaped(tn[x].m[k])
@@ -630,6 +652,7 @@ ExtendLaw == [][/\ op'.name \in {"DVectorExtend", "UIVectorExtend", "IVectorExte
                                        /\ vec'[k][op'.a.a] = vec[k][op'.a.a] /\ vec'[k][op'.a.b] = vec[k][op'.a.b]
                 /\ op'.name = "StrVectorExtend" => sv'[op'.a.y].d = sv[op'.a.a].d \o sv[op'.a.b].d /\ sv'[op'.a.a] = sv[op'.a.a] /\ sv'[op'.a.b] = sv[op'.a.b]
                 /\ op'.name = "StrVectorAppend:own" => sv'[op'.a.x].d = Append(sv[op'.a.x].d, sv[op'.a.x].d[op'.a.k + 1])
+                /\ op'.name \in {"StrVectorAppendInt:big", "StrVectorAppendDouble:big"} => sv'[op'.a.x].d = Append(sv[op'.a.x].d, op'.a.c)
                 /\ op'.name = "SplitString" => sv'[op'.a.x].d = sv[op'.a.x].d \o op'.a.toks
                 /\ op'.name = "DVectorListAppend" => dl'[op'.a.x].d = Append(dl[op'.a.x].d, op'.a.vs)
                 /\ op'.name = "DVectorListAppend:own" => dl'[op'.a.x].d = Append(dl[op'.a.x].d, dl[op'.a.x].d[op'.a.k + 1])
@@ -733,6 +756,8 @@ GenSv ==
   \/ AE # {} /\ \E x \in One(AE), s \in One(StrVals) : SvAppend(x, s)              \* onto an emptied / never filled strvector
   \/ L # {} /\ \E x \in One(L), v \in One(SVals) : SvAppendInt(x, v)
   \/ L # {} /\ \E x \in One(L), v \in One(SVals) : SvAppendDouble(x, v)
+  \/ L # {} /\ IntCodes # {} /\ \E x \in One(L), c \in One(IntCodes) : SvAppendIntBig(x, c)
+  \/ L # {} /\ DblCodes # {} /\ \E x \in One(L), c \in One(DblCodes) : SvAppendDoubleBig(x, c)
   \/ NE # {} /\ \E x \in One(NE), s \in One(StrVals) : \E i \in {EdgeIdx(Len(sv[x].d))} : SvSet(x, i, s)
   \/ G # {} /\ \E x \in One(G) : \E i \in One({j \in 0..(Len(sv[x].d) - 1) : sv[x].d[j + 1] # UNSET}) : SvGet(x, i)
   \/ A # {} /\ D # {} /\ \E a \in One(IF A \cap NE # {} THEN A \cap NE ELSE A), b \in One(A), y \in One(D) : SvExtend(a, b, y)
@@ -849,6 +874,7 @@ OpTags == Tag(op.rel = "self", "K7:self-copy")
           \cup Tag("a" \in DOMAIN op.a /\ "b" \in DOMAIN op.a /\ op.a.a = op.a.b, "K7:extend-self")
           \cup Tag(op.name \in {"TensorAppendMatrix:own", "DVectorListAppend:own", "StrVectorAppend:own", "setStr:own"}, "K7:operand-inside-destination")
           \cup Tag(op.rel \in {"tie-dup", "tie-distinct"}, "K8:sort-" \o op.rel)
+          \cup Tag(op.name \in {"StrVectorAppendInt:big", "StrVectorAppendDouble:big"}, "K4:long-number-text")
           \cup Tag(op.name \in {"MatrixAppendRow", "MatrixAppendUIRow"} /\ op.a.was[1] > 0 /\ op.a.was[2] = 0 /\ Len(op.a.vs) > 0, "K1:append-row-onto-cols0")
           \cup Tag(op.name \in {"MatrixAppendCol", "MatrixAppendUICol"} /\ op.a.was[1] = 0 /\ op.a.was[2] > 0 /\ Len(op.a.vs) > 0, "K1:append-col-onto-rows0")
           \cup Tag(op.name \in {"MatrixDeleteRowAt", "MatrixDeleteColAt"} /\ op.a.k = 0, "K1:delete-first")
